@@ -170,4 +170,81 @@ end
 /-- top level (row_variant.go:307-316): value and typed_value both null reads as variant null -/
 def unshred (s : Schema) (sl : Slot) : Option Value := (unshredR s sl).orNull
 
+
+/-! ### hypotheses of the round-trip theorem -/
+
+mutual
+/-- the keys of every object are pairwise distinct -/
+def distinctKeys : Value → Bool
+  | .prim _ => true
+  | .arr es => distinctKeysL es
+  | .obj fs => distinctKeysF fs && decide ((keysOf fs).Nodup)
+def distinctKeysL : List Value → Bool
+  | [] => true
+  | e :: es => distinctKeys e && distinctKeysL es
+def distinctKeysF : List (Key × Value) → Bool
+  | [] => true
+  | (_, v) :: fs => distinctKeys v && distinctKeysF fs
+end
+
+mutual
+/-- a shredding schema is well formed when the field names of every object group are distinct
+    (they are the keys of a Go map / the children of one Parquet group) -/
+def wfS : Schema → Bool
+  | .untyped => true
+  | .prim _ => true
+  | .list e => wfS e
+  | .obj fs => wfSFields fs && decide ((schemaNames fs).Nodup)
+def wfSFields : List (Key × Schema) → Bool
+  | [] => true
+  | (_, s) :: fs => wfS s && wfSFields fs
+end
+
+/-- the fields of `fs` that the schema shreds, in schema order -/
+def selected (fields : List (Key × Schema)) (fs : List (Key × Value)) : List (Key × Value) :=
+  fields.filterMap fun f => (findField f.1 fs).map fun v => (f.1, v)
+
+/-! ### which leaf column holds a value (used by the correspondence check only) -/
+
+mutual
+/-- leaf columns below one variant group, in schema order: `value`, then the typed_value leaves -/
+def numLeaves : Schema → Nat
+  | .untyped => 1
+  | .prim _ => 2
+  | .list e => 1 + numLeaves e
+  | .obj fs => 1 + numLeavesFields fs
+def numLeavesFields : List (Key × Schema) → Nat
+  | [] => 0
+  | (_, s) :: fs => numLeaves s + numLeavesFields fs
+end
+
+def addVec : List Nat → List Nat → List Nat
+  | a :: as, b :: bs => (a + b) :: addVec as bs
+  | _, _ => []
+
+def b2n (b : Bool) : Nat := if b then 1 else 0
+
+mutual
+/-- number of non-null values each leaf column receives for one slot -/
+def leafCounts : Schema → Slot → List Nat
+  | s, .missing => List.replicate (numLeaves s) 0
+  | .untyped, .mk v _ => [b2n v.isSome]
+  | .prim _, .mk v t => [b2n v.isSome, match t with | .prim _ => 1 | _ => 0]
+  | .list e, .mk v t =>
+    b2n v.isSome :: (match t with
+      | .list slots => leafCountsList e slots
+      | _ => List.replicate (numLeaves e) 0)
+  | .obj fs, .mk v t =>
+    b2n v.isSome :: (match t with
+      | .obj tfs => leafCountsFields fs tfs
+      | _ => List.replicate (numLeavesFields fs) 0)
+def leafCountsList : Schema → List Slot → List Nat
+  | e, [] => List.replicate (numLeaves e) 0
+  | e, s :: ss => addVec (leafCounts e s) (leafCountsList e ss)
+def leafCountsFields : List (Key × Schema) → List (Key × Slot) → List Nat
+  | (_, s) :: fs, (_, sl) :: sls => leafCounts s sl ++ leafCountsFields fs sls
+  | (_, s) :: fs, [] => List.replicate (numLeaves s) 0 ++ leafCountsFields fs []
+  | [], _ => []
+end
+
 end PqModel.Variant
